@@ -367,13 +367,16 @@ class Ctx:
                 else:
                     continue
                 probes.append(("field", i, events[:i] + [e2] + events[i + 1:]))
-        if base_wall > 2.5:   # keep the demonstration cheap for slow trace specifications: one probe per kind
-            keep, seen = [], set()
+        if base_wall > 2.5:   # keep the demonstration cheap for slow trace specifications: one probe per kind first,
+            keep, seen = [], set()   # the others only if none of those is rejected
             for pr in (probes[1], probes[3]) + tuple(probes[4:]):
                 if pr[0] not in seen:
                     seen.add(pr[0])
                     keep.append(pr)
-            probes = keep
+            probes = keep + [pr for pr in probes if pr not in keep]
+            lazy_after = len(keep)
+        else:
+            lazy_after = len(probes)
         rejected = 0
         tdir = os.path.join(self.work, "tamper")
         os.makedirs(tdir, exist_ok=True)
@@ -381,7 +384,9 @@ class Ctx:
         kw = dict(kw)
         kw["timeout"] = min(kw.get("timeout", 600), 180)
         done = 0
-        for kind, i, ev in probes:
+        for pi, (kind, i, ev) in enumerate(probes):
+            if pi >= lazy_after and rejected > 0:
+                break
             with open(tf, "w") as f:
                 json.dump(ev, f, separators=(",", ":"))
             tr = self.tlc(spec_subdir, module, cfg, extra_files=[tf], **kw)
